@@ -304,6 +304,69 @@ func (c *Ctx) checkDecoderValidations() {
 func (c *Ctx) checkMessageDefaults() {
 	p := c.P
 	rule := "O-3 defaults"
+	// the poll response decoder hands an absent NAT type on as "unknown" on every success path
+	if fn := p.Fn("common/messages", "DecodePollResponseWithRelayURL"); fn != nil {
+		isRawNAT := func(v ssa.Value) bool { _, f, ok := fieldLoad(v); return ok && f.Name() == "NAT" }
+		ne := condEdges(fn, false, func(a Atom) bool {
+			if a.Op != token.EQL {
+				return false
+			}
+			if s, ok := constString(a.Y); ok && s == "" && isRawNAT(a.X) {
+				return true
+			}
+			s, ok := constString(a.X)
+			return ok && s == "" && isRawNAT(a.Y)
+		})
+		bad := 0
+		n := 0
+		ei := errResultIndex(fn.Signature)
+		for _, r := range returnsOf(fn) {
+			if ei < 0 || len(r.Results) < 2 || !retMayBeNil(r, ei) {
+				continue
+			}
+			n++
+			// result 1 is the NAT type: may it be the raw field while that field is ""?
+			seen := map[ssa.Value]bool{}
+			var may func(v ssa.Value, at, to *ssa.BasicBlock) bool
+			may = func(v ssa.Value, at, to *ssa.BasicBlock) bool {
+				if ph, ok := v.(*ssa.Phi); ok {
+					if seen[v] {
+						return false
+					}
+					seen[v] = true
+					for i, e := range ph.Edges {
+						if may(e, ph.Block().Preds[i], ph.Block()) {
+							return true
+						}
+					}
+					return false
+				}
+				if s, ok := constString(v); ok {
+					return s == ""
+				}
+				if !isRawNAT(v) {
+					return false
+				}
+				if to != nil {
+					for _, e := range ne {
+						if e.From == at && e.To() == to {
+							return false
+						}
+					}
+				}
+				return len(ne) == 0 || psSearch(fn.Blocks[0], ne, nil, func(b *ssa.BasicBlock) bool { return b == at }) != nil
+			}
+			if may(retVal(r, 1), r.Block(), nil) {
+				bad++
+				c.viol(rule, "DecodePollResponseWithRelayURL maps an absent NAT type to unknown", p.instrPos(r), "a success return can hand on the raw NAT field while it is empty: the proxy is told \"\" instead of \"unknown\"")
+			}
+		}
+		if bad == 0 {
+			c.check(n > 0, rule, "DecodePollResponseWithRelayURL maps an absent NAT type to unknown", p.Pos(fn.Pos()), fmt.Sprintf("%d success return(s)", n), "no success return found")
+		}
+	} else {
+		c.undecided(rule, "messages.DecodePollResponseWithRelayURL", "-", "anchor does not resolve")
+	}
 	// NAT -> unknown: C03's check on both decoders
 	for _, d := range []string{"DecodeProxyPollRequestWithRelayPrefix", "DecodeClientPollRequest"} {
 		c.checkNATSwitch(rule, "common/messages", d)
